@@ -128,7 +128,21 @@ pub fn nowhere() -> Target {
 }
 
 impl Target {
-    /// Class of the target for signatures: independent of which of A/B.
+    /// Coarse class for violation signatures (no database status).
+    pub fn sig_class(&self, m: &Model, principal_db: Option<usize>) -> String {
+        let dbclass = |db: usize| {
+            let own = if principal_db == Some(db) { "own" } else { "other" };
+            format!("{own}-db:{}", if m.dbs[db].bound.is_some() { "bound" } else { "unbound" })
+        };
+        match self.kind {
+            TargetKind::Db(db) => dbclass(db),
+            TargetKind::Pct(db) => format!("pct-encoded:{}", dbclass(db)),
+            TargetKind::Query(db) => format!("with-query:{}", dbclass(db)),
+            _ => self.class(m, principal_db),
+        }
+    }
+
+    /// Class of the target for distinct-case keys: independent of which of A/B.
     pub fn class(&self, m: &Model, principal_db: Option<usize>) -> String {
         let dbclass = |db: usize| {
             let d = &m.dbs[db];
@@ -195,6 +209,15 @@ impl Body {
         match &self.kind {
             BodyKind::Method { name, .. } => Some(name),
             _ => None,
+        }
+    }
+    /// Coarse body class for signatures of cells that are decided before the
+    /// method is looked at.
+    pub fn sig_class(&self) -> String {
+        match &self.kind {
+            BodyKind::Method { variant: Variant::Minimal, .. } => "method".into(),
+            BodyKind::Method { variant: Variant::BadParams, .. } => "method-bad-params".into(),
+            BodyKind::Probe(p) => format!("probe:{p}"),
         }
     }
     pub fn variant(&self) -> Option<Variant> {
